@@ -9,7 +9,7 @@ from tools import pull, vlib
 class C13(vlib.Spec):
     model_vo = ["theories/Pull/CorrJoin.vo"]
     props_vo = "theories/Props/C13.vo"
-    theorems = ['C13_poll_invariant', 'C13_run_invariant', 'C13_nothing_pending_at_end', 'C13_incremental_partial', 'C13_new_tick', 'C13_new_tick_lhs_smaller', 'C13_new_tick_rhs_smaller', 'C13_build', 'C13_drain_multiset']
+    theorems = ['C13_poll_invariant', 'C13_run_invariant', 'C13_nothing_pending_at_end', 'C13_emits_join_of_tables', 'C13_new_tick', 'C13_new_tick_lhs_smaller', 'C13_new_tick_rhs_smaller', 'C13_build', 'C13_drain_multiset', 'C13_incremental', 'C13_incremental_persisted', 'C13_set_each_pair_once', 'C13_terminates', 'C13_fuel_enough', 'C13_new_tick_same_as_incremental', 'C13_ticks']
     crate, group, binary = "h_pull", "light", "h_pull"
     imports = "From HV Require Import Pull.CorrJoin."
     trusted_base = ["coqc 8.16.1 kernel (vm_compute used for case evaluation only)",
@@ -31,7 +31,7 @@ class C13(vlib.Spec):
         return pull.gen_c13(rng, tier, n, self.corpus())
 
     def n_cases(self, tier):
-        return 800 if tier == "quick" else 4000
+        return 600 if tier == "quick" else 4000
 
     def to_coq(self, case, res):
         return pull.c13_term(case, res)
@@ -50,17 +50,7 @@ class C13(vlib.Spec):
         return pull.dist_c13(cases, results)
 
 
-EXPLANATION = ("Coq proof, partial: proved for all scripts -- per-poll and per-run invariant emitted + pending matches + "
-               "join(old tables) = pending before + join(new tables); nothing pending at the end; emitted + join(initial tables) "
-               "= join(final tables); both NewTickJoinIter branches enumerate the join of the drained tables; build/probe "
-               "specifications; multiset drain = initial rows + arrivals. Not proved (checked on every run on the "
-               "implementation's outputs by C13_holds_b): final tables of the incremental run = deduplicated (set) / all "
-               "(multiset) arrivals, NoDup of the set-state output, the multi-tick statement assembled from C13_new_tick.")
-
-
 def main(ctx):
     spec = C13()
     spec.ctx = ctx
-    spec.level = "other"
-    pull.finish_as_other(vlib, EXPLANATION)
     vlib.standard_check(ctx, spec)
